@@ -81,8 +81,12 @@ def _query(h, w, q, pairs):
             ok = ok and k in out and out[k] == w.content(*objs[k])
         return ok
     if q == 2:
-        metas = dict(h.get_objects_meta(keys, skip_if_missing=False))
-        return all(metas[k].size == objs[k][1] for k in keys)
+        # a key that does not exist is part of the request: it is reported MISSING once, every object once
+        got = list(h.get_objects_meta(keys + [ABSENT], skip_if_missing=False))
+        if len(got) != len(keys) + 1:
+            return False
+        metas = dict(got)
+        return metas[ABSENT].size is None and all(metas[k].size == objs[k][1] for k in keys)
     if q == 3:
         return sorted(h.list_all_objects()) == sorted(keys)
     ok = True
